@@ -230,7 +230,7 @@ def c06_opts(rng):
 
 
 def c07_opts(rng):
-    return ({}, {"depth": [0, 1, 2, 3], "both_modes": True, "index_p": 0.5, "optimize_p": 0.5, "index_shape_p": 0.25})
+    return ({}, {"depth": [0, 1, 2, 3], "both_modes": True, "index_p": 0.5, "optimize_p": 0.6, "index_shape_p": 0.25, "cv_run_p": 0.5})
 
 
 def c08_opts(rng):
@@ -293,7 +293,7 @@ REGISTRY = {
         "assumptions": QUERY_ASSUMPTIONS,
     },
     "C17": {
-        "lean_modules": ["C17", "C17Sort"],
+        "lean_modules": ["C17", "C17Sort", "C17Headers"],
         "run": mk_query_runner(c17_opts, 500, 10000, data=True, stats=True, runner=queryfam.run_reprint_batches),
         "rule": "every generated request (filters of every operator x column type, nested negated groups, Stats counters/aggregates, Sort incl. custom variables, Limit/Offset, AuthUser; both parse modes) is parsed by the implementation, "
                 "serialised with Request.String(), re-parsed and evaluated; the answer must satisfy the specification of the original request",
@@ -344,7 +344,7 @@ REGISTRY = {
         "assumptions": ["ids created by the backend are larger than every id it created before (the Livestatus contract, MonotoneIds)", "virtual clock, whole seconds"],
     },
     "C03": {
-        "lean_modules": ["C03"],
+        "lean_modules": ["C03", "C03Run"],
         "run": worldfam.run_c03,
         "rule": "histories of 3-20 rounds on a real Peer: backend mutations of kinds check result / acknowledgement / downtime depth / enabled flag / modified attributes / running check / custom variable values / timeperiod flip at instants inside the update interval, "
                 "update ticks with contiguous windows, updates aborted after 0-6 backend queries, backends with and without last_update, SyncIsExecuting on/off; every dynamic host/service column is compared with Lmd.updateDelta after each round, "
